@@ -92,6 +92,7 @@ class C14(core.Check):
         "rational quaternion, translation, uniform scale factor in 0.1..100 (and combinations). Stretch cases: a cube / "
         "square of side 0.5..100 under a random rigid motion, stretched by two factors 1 <= s1 < s2 <= 10 along each of its "
         "directions. Histories: one grid object on a jittered row of 2..4 cells through read / grid.update(i, position) steps, "
+        "or a rigid motion of the whole grid out of its plane (point by point or written at once), "
         "compared at every read with a freshly built grid and at the end with fresh grids on rigidly moved points. "
         "Boundary stream: degenerate cells (coincident points). Non-trivial = not degenerate; distinct = "
         "different case dict."
@@ -233,6 +234,13 @@ class C14(core.Check):
         pts = [[x + _dy(rng, -0.2, 0.2) for x in p] for p in p3]
         return pts, c3
 
+    def _quat_oblique(self, rng):
+        """a rotation about an axis that is not the z axis (turns a sketch out of its plane), by a sizeable angle"""
+        while True:
+            q = [rng.randint(-4, 4) for _ in range(4)]
+            if q[0] and (q[1] or q[2]) and 4 * (q[1] ** 2 + q[2] ** 2 + q[3] ** 2) >= q[0] ** 2:
+                return q
+
     def _quat(self, rng):
         while True:
             q = [rng.randint(-6, 6) for _ in range(4)]
@@ -298,7 +306,24 @@ class C14(core.Check):
             npts = len(pts)
             cur = [list(p) for p in pts]
             hops: List[list] = [["R"]]
-            if rng.random() < 0.25:
+            r3 = rng.random()
+            if r3 < 0.3:
+                # round 3: the whole grid is rotated rigidly (quads: out of their plane) on the SAME grid object, once or
+                # twice, either point after point through grid.update or by writing grid.points at once (as the smoother does)
+                for _ in range(rng.randint(1, 2)):
+                    t = {"quat": self._quat_oblique(rng), "trans": [str(k0 * _dy(rng, -1, 1)) for _ in range(3)]}
+                    cur = transform_points(cur, t)
+                    cur = [[F(float(x)) for x in p] for p in cur]  # what the float array will hold
+                    if rng.random() < 0.5:
+                        hops.append(["W", [[str(x) for x in p] for p in cur]])
+                    else:
+                        order = list(range(npts))
+                        rng.shuffle(order)
+                        for i in order:
+                            hops.append(["U", i, [str(x) for x in cur[i]]])
+                    hops.append(["R"])
+                tag = "history-rotate"
+            elif r3 < 0.5:
                 # a translation carried out point after point
                 shift = [k0 * _dy(rng, -0.5, 0.5), k0 * _dy(rng, -0.5, 0.5), k0 * _dy(rng, -0.5, 0.5) if kind == "hex" else F(0)]
                 order = list(range(npts))
@@ -425,6 +450,9 @@ class C14(core.Check):
         for op in case["hops"]:
             if op[0] == "R":
                 steps.append({"read": values(grid), "fresh": values(cls(grid.points.copy(), [list(c) for c in cells]))})
+            elif op[0] == "W":
+                grid.points[:] = np.array([[float(F(x)) for x in q] for q in op[1]], dtype=float)
+                steps.append({"write": True})
             else:
                 try:
                     ret: Any = float(grid.update(op[1], np.array([float(F(x)) for x in op[2]])))
@@ -445,8 +473,11 @@ class C14(core.Check):
         if case.get("cls") == "history":
             cells = ";".join("[" + ",".join(map(str, c)) + "]" for c in case["cells"])
             pts = ";".join(",".join(p) for p in impl["start"])
-            ops = "|".join("R" if op[0] == "R" else f"U{op[1]}:" + ",".join(core.rat(float(F(x))) for x in op[2])
-                           for op in case["hops"])
+            ops = "|".join(
+                "R" if op[0] == "R"
+                else ("W" + ";".join(",".join(core.rat(float(F(x))) for x in q) for q in op[1]) if op[0] == "W"
+                      else f"U{op[1]}:" + ",".join(core.rat(float(F(x))) for x in op[2]))
+                for op in case["hops"])
             return [f"c14.hist {case['kind']} {cells} {pts} {ops}"]
         reqs = []
         for e in impl["evals"]:
@@ -479,10 +510,15 @@ class C14(core.Check):
                         if (a == "degenerate") != (b is None) or (b is not None and not abs(a - b) <= 1e-8 * max(1.0, abs(a))):
                             return (f"history step {k} (read) cell {ci}: the grid reports {a!r}, the model (= a fresh grid on the "
                                     f"current points) {b!r}; history {case['hops'][:k + 1]}")
+                elif "write" in st:
+                    if seg != "W":
+                        return f"history step {k}: model answers {seg[:40]} to a whole-array write"
                 else:
                     b = val(seg[1:])
                     a = st["ret"]
-                    if (a == "degenerate") != (b is None) or (b is not None and not abs(a - b) <= 1e-8 * max(1.0, abs(a))):
+                    # half-way through a point-by-point rotation the cells are strongly twisted (arccos arguments near -1/1)
+                    rel = 2e-6 if case["tag"] == "history-rotate" else 1e-8
+                    if (a == "degenerate") != (b is None) or (b is not None and not abs(a - b) <= rel * max(1.0, abs(a))):
                         return f"history step {k} {case['hops'][k]}: update returns {a!r}, model junction quality {b!r}"
             return None
         for k, (e, line) in enumerate(zip(impl["evals"], model)):
@@ -630,11 +666,12 @@ class C14(core.Check):
                                     "what": f"after {case['hops']} cell {ci} reports {a!r}, a fresh grid on the same points moved by "
                                             f"{t} reports {b!r}", "observed": a, "expected": b})
                         return out
-            if case["tag"] == "history-translate":
+            if case["tag"] in ("history-translate", "history-rotate"):
+                how = "pointwise-translation" if case["tag"] == "history-translate" else "rigid-motion-of-the-same-grid"
                 for ci, (a, b) in enumerate(zip(first["read"], last["read"])):
                     if differ(a, b, 2e-6):
-                        out.append({"site": f"{cls}.quality:changed-by-pointwise-translation",
-                                    "what": f"all points were shifted by the same vector one after another; cell {ci}: {a!r} -> {b!r}",
+                        out.append({"site": f"{cls}.quality:changed-by-{how}",
+                                    "what": f"all points of one grid object were moved rigidly ({case['tag']}); cell {ci}: {a!r} -> {b!r}",
                                     "observed": b, "expected": a})
                         return out
         return out
@@ -646,7 +683,7 @@ class C14(core.Check):
 
     def classify(self, case, impl):
         if case.get("cls") == "history":
-            return f"{case['kind']}:{case['tag']}:{sum(1 for o in case['hops'] if o[0] == 'U')}u"
+            return f"{case['kind']}:{case['tag']}:{sum(1 for o in case['hops'] if o[0] == 'U')}u{sum(1 for o in case['hops'] if o[0] == 'W')}w"
         if case["tag"] in ("stretch", "degenerate", "grid"):
             return f"{case['kind']}:{case['tag']}"
         return f"{case['kind']}:{case['tag']}:{len(case['transforms'])}t"
